@@ -7,6 +7,7 @@ package simos
 import (
 	"context"
 	"errors"
+	"fmt"
 	"io"
 	"io/fs"
 	"strings"
@@ -86,8 +87,28 @@ type Disk struct {
 	Calls      int
 	Counts     [NumFaults]int
 	persistent bool
-	eofAt      map[*simFile]int64
 	ErrorFired bool
+	// Log keeps the first disk calls (kind, position, size) for diagnostics
+	Log    [256][3]int64
+	LogLen int
+}
+
+//go:norace
+func (d *Disk) logCall(kind, pos, n int64) {
+	if d.LogLen < len(d.Log) {
+		d.Log[d.LogLen] = [3]int64{kind, pos, n}
+		d.LogLen++
+	}
+}
+
+// LogString renders the recorded calls.
+func (d *Disk) LogString() string {
+	var sb strings.Builder
+	for i := 0; i < d.LogLen; i++ {
+		e := d.Log[i]
+		fmt.Fprintf(&sb, "%d:%c@%d+%d ", i, byte(e[0]), e[1], e[2])
+	}
+	return sb.String()
 }
 
 //go:norace
@@ -123,6 +144,7 @@ func (d *Disk) call() (planned int) {
 func (f *simFile) Stat() (fs.FileInfo, error) {
 	simrt.Yield(SiteDiskStat)
 	d := f.os.Disk
+	d.logCall('t', 0, 0)
 	pl := d.call()
 	if d.persistent || pl == PlanTransient || pl == PlanPersistent {
 		if pl == PlanPersistent {
@@ -146,6 +168,7 @@ func (f *simFile) Stat() (fs.FileInfo, error) {
 func (f *simFile) Read(p []byte) (int, error) {
 	simrt.Yield(SiteDiskRead)
 	d := f.os.Disk
+	d.logCall('r', f.pos, int64(len(p)))
 	pl := d.call()
 	if f.spec.Kind == Dir {
 		return 0, &fs.PathError{Op: "read", Path: f.name, Err: errors.New("is a directory")}
@@ -221,6 +244,7 @@ func (f *simFile) Read(p []byte) (int, error) {
 func (f *simFile) seek(off int64, whence int) (int64, error) {
 	simrt.Yield(SiteDiskSeek)
 	d := f.os.Disk
+	d.logCall('s', off, int64(whence))
 	pl := d.call()
 	if d.persistent {
 		d.Counts[FPersistentCall]++
